@@ -95,7 +95,7 @@ def plans_for(ctx, c, r0, pairs):
         plans.append(('seek-refused', [f'fail lseek S/f * {E["EINVAL"]}']))
         plans.append(('seek-refused-later', [f'fail lseek S/f 3 {E["EINVAL"]}']))
     if ctx.quick and len(plans) > 9:
-        always = ('short-then-error', 'short-then-unsupported', 'fiemap-EOPNOTSUPP', 'fiemap-EOPNOTSUPP+short', 'seek-refused', 'seek-refused-later')
+        always = ('short-then-error', 'short-then-unsupported', 'fiemap-EOPNOTSUPP', 'fiemap-EOPNOTSUPP+short', 'seek-refused', 'seek-refused-later', 'uspace-short-write', 'cfr-always-ENOSYS')
         keep = plans[:2] + [p for p in plans[2:] if p[0] in always] + rng.sample([p for p in plans[2:] if p[0] not in always], 5)
         plans = keep
     return plans
